@@ -9,6 +9,7 @@ negates the field (both from the Biot–Savart integral representation, Lemmas/S
    forms (each equivalent to C01 for both sides) and are not shown by theorem; the whole-vs-parts
    oracle checks them on the real code. -/
 -/
+import MagpyVerif.Lemmas.KernCylSeg
 import MagpyVerif.Lemmas.KernReal
 import MagpyVerif.Lemmas.KernelLiterals
 import MagpyVerif.Lemmas.KernAlgebra
@@ -95,5 +96,46 @@ example : (1/2 : ℝ) ≠ 0 ∧ (1/2 : ℝ) ≠ 1 ∧
     0 < SegBS.nsq (V3.cross ((⟨1, 0, 0⟩ : V3 ℝ) - ⟨0, 0, 0⟩) (⟨1/2, 1, 0⟩ - ⟨0, 0, 0⟩)) := by
   refine ⟨by norm_num, by norm_num, ?_⟩
   simp [SegBS.nsq, V3.cross]
+
+end MagpyVerif.C13
+
+/-! ### CylinderSegment with a full 360° range -/
+namespace MagpyVerif.C13
+open MagpyVerif MagpyVerif.Kern MagpyVerif.Kern.CylSeg
+
+/-- C13 (CylinderSegment ↔ Cylinder): when the section angles span 360° or more, the ported
+`BHJM_cylinder_segment_internal` returns Cylinder(diameter 2·r2, height h) minus — for a hollow ring, `r1 ≠ 0` —
+Cylinder(diameter 2·r1, height h), for every field and observer; the segment formulas are not evaluated.
+(`none`: a `cel0` call of the Cylinder kernel failed.) -/
+theorem full_ring_is_cylinder_difference (μ : ℝ) (S : SegSpecial) (fuel : Nat) (f : Field) (x : V3 ℝ)
+    (r1 r2 h p1 p2 : ℝ) (pol : V3 ℝ) (hfull : 360 ≤ p2 - p1) :
+    @bhjmCylSegInternal ℝ (realNumX μ S) fuel f x r1 r2 h p1 p2 pol =
+      (@bhjmCylinder ℝ (realNum μ) fuel f (2 * r2, h) pol x).bind fun outer =>
+        if r1 ≠ 0 then (@bhjmCylinder ℝ (realNum μ) fuel f (2 * r1, h) pol x).map fun inner => outer - inner
+        else some outer :=
+  internal_full_ring μ S fuel f x r1 r2 h p1 p2 pol hfull
+
+/-- below 360° the internal wrapper is the segment solution -/
+theorem partial_ring_is_segment (μ : ℝ) (S : SegSpecial) (fuel : Nat) (f : Field) (x : V3 ℝ)
+    (r1 r2 h p1 p2 : ℝ) (pol : V3 ℝ) (hseg : p2 - p1 < 360) :
+    @bhjmCylSegInternal ℝ (realNumX μ S) fuel f x r1 r2 h p1 p2 pol =
+      @bhjmCylSeg ℝ (realNumX μ S) f x r1 r2 h p1 p2 pol :=
+  internal_segment μ S fuel f x r1 r2 h p1 p2 pol hseg
+
+-- non-vacuity: both hypotheses are satisfiable
+example : (360 : ℝ) ≤ 360 - 0 ∧ (90 : ℝ) - 0 < 360 := by norm_num
+
+end MagpyVerif.C13
+
+namespace MagpyVerif.C13
+open MagpyVerif MagpyVerif.Kern MagpyVerif.Kern.CylSeg
+
+/-- C13 (angle representation): the helper `arctan_k_tan_2` of the CylinderSegment case functions continues
+arctan(k·tan(φ/2)) periodically — describing the same angle one full turn further adds exactly π, for every k and
+every φ, including the odd multiples of π where `np.round` meets a tie (ties-to-even: the number of full periods
+then jumps by 0 or 2, and both values come from the `phi_red / 2` branch) -/
+theorem arctan_k_tan_2_periodic_continuation (μ : ℝ) (S : SegSpecial) (k φ : ℝ) :
+    @arctan_k_tan_2 ℝ (realNumX μ S) k (φ + 2 * Real.pi) = @arctan_k_tan_2 ℝ (realNumX μ S) k φ + Real.pi :=
+  arctan_k_tan_2_add_two_pi μ S k φ
 
 end MagpyVerif.C13
